@@ -204,7 +204,7 @@ func (e *Enc) call(v *ssa.Call, c *ssa.CallCommon) {
 			if !hasMod {
 				e.oblige("frame", fmt.Sprintf("frame/call(%s)@%s", ci.key, label), "false", e.fv.modTags(), "callee has no modifies clause")
 			} else {
-				goal := fmt.Sprintf("(forall ((r Ref)) (=> (and (select %s r) %s) %s))", e.H0(heapAlloc), modPred("r"), e.fv.modPred(e, "r"))
+				goal := fmt.Sprintf("(forall ((r Ref)) (=> (and (isalloc %s r) %s) %s))", e.H0(heapAlloc), modPred("r"), e.fv.modPred(e, "r"))
 				e.oblige("frame", fmt.Sprintf("frame/call(%s)@%s", ci.key, label), goal, e.fv.modTags(), "callee modifies ⊆ caller modifies")
 			}
 		}
@@ -225,11 +225,11 @@ func (e *Enc) call(v *ssa.Call, c *ssa.CallCommon) {
 		old := e.H(h)
 		nw := e.bump(h)
 		if h == heapAlloc {
-			e.assume(fmt.Sprintf("(forall ((r Ref)) (! (=> (select %s r) (select %s r)) :pattern ((select %s r))))", old, nw, nw))
+			e.assume(fmt.Sprintf("(<= %s %s)", old, nw))
 			continue
 		}
 		if hasMod && isRefHeap(w.heapSorts[h]) {
-			e.assume(fmt.Sprintf("(forall ((r Ref)) (! (=> (and (select %s r) (not %s)) (= (select %s r) (select %s r))) :pattern ((select %s r))))",
+			e.assume(fmt.Sprintf("(forall ((r Ref)) (! (=> (and (isalloc %s r) (not %s)) (= (select %s r) (select %s r))) :pattern ((select %s r))))",
 				allocPre, modPred("r"), nw, old, nw))
 		}
 	}
@@ -439,7 +439,7 @@ func (e *Enc) appendCall(v *ssa.Call, c *ssa.CallCommon) {
 	r := e.newRef(q("arr." + v.Name()))
 	cont := e.declare(q("cont."+v.Name()), "(Array Int "+es+")")
 	// copy of s
-	e.assume(fmt.Sprintf("(forall ((i Int)) (! (=> (and (<= 0 i) (< i (s_len %s))) (= (select %s i) (select (select %s (s_arr %s)) (+ (s_off %s) i)))) :pattern ((select %s i))))", s, cont, old, s, s, cont))
+	e.assume(fmt.Sprintf("(forall ((i Int)) (! (=> (and (<= 0 i) (< i (s_len %s))) (= (select %s i) (select (select %s (s_arr %s)) (idx %s i)))) :pattern ((select %s i))))", s, cont, old, s, s, cont))
 	var tlen string
 	t := c.Args[1]
 	if bt, ok := t.Type().Underlying().(*types.Basic); ok && bt.Info()&types.IsString != 0 {
@@ -453,9 +453,9 @@ func (e *Enc) appendCall(v *ssa.Call, c *ssa.CallCommon) {
 	} else {
 		tv := e.val(t)
 		tlen = "(s_len " + tv + ")"
-		e.assume(fmt.Sprintf("(forall ((i Int)) (! (=> (and (<= 0 i) (< i (s_len %s))) (= (select %s (+ (s_len %s) i)) (select (select %s (s_arr %s)) (+ (s_off %s) i)))) :pattern ((select %s (+ (s_len %s) i)))))", tv, cont, s, old, tv, tv, cont, s))
+		e.assume(fmt.Sprintf("(forall ((j Int)) (! (=> (and (<= (s_len %s) j) (< j (+ (s_len %s) (s_len %s)))) (= (select %s j) (select (select %s (s_arr %s)) (idx %s (- j (s_len %s)))))) :pattern ((select %s j))))", s, s, tv, cont, old, tv, tv, s, cont))
 	}
-	e.setHeap(h, fmt.Sprintf("(store %s %s %s)", old, r, cont))
+	e.storeRef(h, r, cont)
 	e.defVal(v, fmt.Sprintf("(mk_slice %s 0 (+ (s_len %s) %s))", r, s, tlen))
 }
 
@@ -506,7 +506,7 @@ func (e *Enc) varargsElems(t ssa.Value) ([]string, bool) {
 func (e *Enc) ret(x *ssa.Return) {
 	if e.fv.cover {
 		e.obls = append(e.obls, &Obligation{Name: "cover/return@" + e.siteLabel(), Fn: funcKey(e.fn), Kind: "cover", Prefix: len(e.asserts),
-			Reach: e.reach[e.curBlock], Goal: "false", Src: "vacuity guard: this return must be reachable under the assumptions (expected: NOT unsat)", Pos: e.pos(), enc: e})
+			Reach: e.reach[e.curBlock], Goal: "false", Src: "vacuity guard: this return must be reachable under the assumptions (expected: NOT unsat)", Pos: e.pos(), enc: e, Block: e.curBlock})
 	}
 	if e.spec == nil {
 		return
